@@ -53,6 +53,7 @@ type State struct {
 	unknownHavoc bool // a call without contract (or `modifies *`) happened: the frame cannot be established
 	freshEpochs map[int]*freshEpoch // epochs created by `modifies fresh`: untouched arrays keep their old content at old objects
 	prevVals map[*ssa.BasicBlock]map[string]Term // loop head -> values of named variables right after the havoc
+	inline     []*ssa.Call // calls of contract-less, loop-free repository functions that are being executed inline
 	localChans []string // channels made by this function that do not escape (see chanEscapes)
 	epoch   int // >0 after a havoc-all: untouched heap variables are unknown, not initial
 }
@@ -114,6 +115,7 @@ func (s *State) fork() *State {
 	}
 	n.pathID = s.pathID
 	n.localChans = s.localChans[:len(s.localChans):len(s.localChans)]
+	n.inline = s.inline[:len(s.inline):len(s.inline)]
 	n.consts = s.consts[:len(s.consts):len(s.consts)]
 	n.asserts = s.asserts[:len(s.asserts):len(s.asserts)]
 	n.defers = s.defers[:len(s.defers):len(s.defers)]
